@@ -38,11 +38,14 @@ Viol(o) ==
      V(ok = 1..Len(ts), "panic")
      \cup UNION {V(Normalised(Chars(ts[i].s)), "whitespace") : i \in ok}
      \cup UNION {V(J2N(ts[i].pv) = J2N(o.c.v), "harness-built-other-value") : i \in ok}
-     \cup V(\A i \in ok : \A j \in ok : Tokens(ts[i].s) = Tokens(ts[j].s) /\ Len(ts[i].s) = Len(ts[j].s), "equal-values-render-differently")
+     \cup (IF ok = {} THEN {} ELSE
+             LET f == CHOOSE i \in ok : TRUE
+                 tf == Tokens(ts[f].s)
+             IN V(\A i \in ok \ {f} : ts[i].s = ts[f].s \/ (Len(ts[i].s) = Len(ts[f].s) /\ Tokens(ts[i].s) = tf), "equal-values-render-differently"))
      \cup UNION {PartViol(o.o.parts[f], f) : f \in DOMAIN o.o.parts})
   \cup (IF Mode = "local" THEN {} ELSE V(\A i \in ok : ts[i].s \notin Ambiguous, "two-values-one-text"))
 \* the layout model on the iteration order this instance had
-Drift(o) == IF "texts" \notin DOMAIN o.o \/ Mode = "global" THEN {} ELSE
+Drift(o) == IF "texts" \notin DOMAIN o.o \/ Mode = "global" \/ "exotic" \in DOMAIN o.c THEN {} ELSE
             LET ok == OkTexts(o)
                 Ord(j) == CASE j.kind = "term" -> [kind |-> "term", v |-> J2O(j.v)]
                             [] j.kind = "sentence" -> [kind |-> "sentence", v |-> [t |-> J2O(j.v.t), p |-> j.v.p, st |-> j.v.st, tr |-> SeqOf(j.v.tr)]]
